@@ -245,6 +245,7 @@ class FnOut:
         self.has_contract = False
         self.rewrites = []
         self.repo_line = None
+        self.extra = []
 
 
 class Piece:
@@ -292,6 +293,24 @@ def _parse_block(lines):
                 opts["keep_attrs"] = True
             elif kw == "nocanary":
                 opts["nocanary"] = True
+            elif kw == "lift":
+                m = re.match(r"^(\w+)\s+/(.*)/\s*$", rest)
+                if not m:
+                    raise UnitError("bad lift: " + ln)
+                opts.setdefault("lifts", {})[m.group(1)] = {"pat": m.group(2), "call": None, "head": None,
+                                                           "mutrefs": [], "contract": [], "serves": None}
+            elif kw == "lift-call":
+                n_, t_ = rest.split(None, 1)
+                opts["lifts"][n_]["call"] = t_
+            elif kw == "lift-head":
+                n_, t_ = rest.split(None, 1)
+                opts["lifts"][n_]["head"] = t_
+            elif kw == "lift-mutrefs":
+                parts_ = rest.split()
+                opts["lifts"][parts_[0]]["mutrefs"] = parts_[1:]
+            elif kw == "lift-contract":
+                n_ = rest.rstrip(":").strip()
+                cur = opts["lifts"][n_]["contract"]
             elif kw == "type":
                 # type <local> <inttype> : hint for R1
                 a, b = rest.split()
@@ -537,6 +556,35 @@ def build_fn(repo, file, path, opts, as_item=False):
             raise LostAnchor("rewrite pattern /%s/ not found in %s :: %s" % (pat, file, path))
         if n:
             log.append((rule, "/%s/ => %s" % (pat, repl), n))
+    lifted = []  # (name, head text, contract lines, body text, body offset line)
+    for lname, L in opts.get("lifts", {}).items():
+        bm0 = mask(body)
+        mm = re.search(L["pat"], bm0)
+        if not mm:
+            raise LostAnchor("lift anchor /%s/ not found in %s :: %s" % (L["pat"], file, path))
+        seg = bm0[mm.start():mm.end()]
+        po = mm.start() + seg.index("(")          # the `(` of `(|| ...`
+        bo = mm.start() + seg.rindex("{")         # the closure body's `{`
+        bc = match_brace(bm0, bo)
+        tail = re.match(r"\s*\)\s*\(\s*\)", bm0[bc + 1:])
+        if not tail:
+            raise Unsupported("R14: closure at /%s/ is not immediately invoked" % L["pat"])
+        end = bc + 1 + tail.end()
+        cbody = body[bo:bc + 1]
+        for v in L["mutrefs"]:
+            cm = mask(cbody)
+            outp = []
+            pos_ = 0
+            for m2 in re.finditer(r"&mut\s+" + re.escape(v) + r"\b", cm):
+                outp.append(cbody[pos_:m2.start()])
+                outp.append("&mut *" + v)
+                pos_ = m2.end()
+            outp.append(cbody[pos_:])
+            cbody = "".join(outp)
+        nl = body[po:end].count("\n")
+        lifted.append((lname, L, cbody, body[:bo].count("\n")))
+        body = body[:po] + L["call"] + "\n" * nl + body[end:]
+        log.append(("R14", "immediately-invoked closure lifted to fn %s (captures become parameters)" % lname, 1))
     if opts["rename"]:
         head = re.sub(r"\bfn\s+" + re.escape(it.name) + r"\b", "fn " + opts["rename"], head, count=1)
     head, _ = _name_return(head, opts["ret"])
@@ -589,6 +637,22 @@ def build_fn(repo, file, path, opts, as_item=False):
         pieces.append(Piece(t))
         pos = off
     pieces.append(Piece(body[pos:] + "\n", body_line + body[:pos].count("\n")))
+    extra = []
+    for (lname, L, cbody, line_off) in lifted:
+        f2 = FnOut()
+        f2.file = file
+        f2.path = path + " :: closure " + lname
+        f2.name = lname
+        f2.serves = opts["serves"]
+        f2.repo_line = body_line + line_off
+        f2.has_contract = bool(L["contract"])
+        p2 = [Piece(L["head"].rstrip() + "\n")]
+        if L["contract"]:
+            p2.append(Piece("\n".join(L["contract"]) + "\n"))
+            p2.append(Piece("/*@canary-slot*/\n"))
+        p2.append(Piece(cbody + "\n", body_line + line_off))
+        extra.append((p2, f2))
+    fo.extra = extra
     return pieces, fo
 
 
@@ -671,6 +735,10 @@ def assemble(unit_path, repo, units_root):
                 out_pieces.append((p, fo if kind == "fn" else None, file))
             if kind == "fn":
                 u.fns.append(fo)
+                for (p2, f2) in getattr(fo, "extra", []):
+                    for p in p2:
+                        out_pieces.append((p, f2, file))
+                    u.fns.append(f2)
             continue
         if ln.startswith("//@"):
             if ln.startswith("//@ unit") or ln.startswith("//@ note"):
